@@ -36,7 +36,7 @@ handlers / pool adapter) is not seen.  Every `.read()` / `.write()` / `.batch()`
 `.lock()` … with an empty argument list that is not one of the recognised shapes makes the
 generator die (so a new locking construct breaks the tie loudly instead of being missed).
 """
-import re, os
+import re, os, sys
 
 LOCK_METHODS = ("read", "write", "batch", "lock", "try_read", "try_write", "try_lock",
                 "read_recursive", "upgradable_read", "try_read_for", "try_write_for")
@@ -628,7 +628,8 @@ def generate(repo_root, die):
 
     n_acq = sum(1 for _, _, evs in table + seg_table for e in evs if e[0] == "acq")
     print(f"gen_locks: {len(table)} pub fns of impl Chain (+{len(seg_table)} of impl Segmenter), {n_acq} acquisitions after inlining; "
-          f"recognised in chain.rs: {tr.recognised}; batch wrappers in txhashset.rs: {wrappers}; skipped (no self): {skipped}")
+          f"recognised in chain.rs: {tr.recognised}; batch wrappers in txhashset.rs: {wrappers}; skipped (no self): {skipped}",
+          file=sys.stderr)
 
     L = []
     L.append("import GrinVerif.Model.Conc")
@@ -662,7 +663,6 @@ def generate(repo_root, die):
 
 
 if __name__ == "__main__":
-    import sys
 
     def _die(m):
         print(m); sys.exit(1)
